@@ -33,13 +33,16 @@ try:
     res["demo_fails_with_change"] = "FAIL" in r.stdout
     os.remove(demo_dst)
     print("SEED %s/%s: %s" % (meta["property"], meta.get("variant", ""), res), flush=True)
-    procs = {}
-    for p in props:
-        procs[p] = subprocess.Popen("cd /verif && VERIF_REPO=%s VERIF_SCRATCH=/tmp timeout 1500 bin/check %s 2>&1" % (wt, p), shell=True,
-                                    stdout=subprocess.PIPE, text=True)
     out = {}
-    for p, pr in procs.items():
+    import concurrent.futures
+    def runp(p):
+        pr = subprocess.Popen("cd /verif && VERIF_REPO=%s VERIF_SCRATCH=/tmp timeout 1800 bin/check %s 2>&1" % (wt, p), shell=True,
+                              stdout=subprocess.PIPE, text=True)
         o, _ = pr.communicate()
+        return p, pr, o
+    with concurrent.futures.ThreadPoolExecutor(max_workers=5) as ex:
+        done = list(ex.map(runp, props))
+    for p, pr, o in done:
         viol = [l for l in o.splitlines() if l.startswith("  violation:")]
         verdict = "DETECTED" if pr.returncode == 1 else ("missed" if pr.returncode == 0 else "BROKEN(rc=%d)" % pr.returncode)
         out[p] = {"rc": pr.returncode, "verdict": verdict, "first": viol[0].strip() if viol else ""}
